@@ -28,6 +28,7 @@ class ShimParser:
         self.rules = {r.name: r for r in self.model.rules}
         self.names = {r.name: self._names(r.exp) for r in self.model.rules}
         self._re = {}
+        self.leftclos = self._left_closure()
 
     def _names(self, e):
         t = type(e).__name__
@@ -43,6 +44,71 @@ class ShimParser:
                 for x in v:
                     out += self._names(x)
         return out
+
+    # ---- static analysis used only to limit memo invalidation during seed growing
+    def _nullable_exp(self, e, nullable):
+        t = type(e).__name__
+        if t == 'Token':
+            return e.token == ''
+        if t == 'Pattern':
+            return re.compile(e.pattern).match('') is not None
+        if t == 'EOF':
+            return True
+        if t == 'Call':
+            return e.name in nullable
+        if t in ('Named', 'Option'):
+            return self._nullable_exp(e.exp, nullable)
+        if t == 'Choice':
+            return any(self._nullable_exp(o, nullable) for o in e.options)
+        if t == 'Sequence':
+            return all(self._nullable_exp(x, nullable) for x in e.sequence)
+        return True   # unknown construct: be conservative
+
+    def _first_calls(self, e, nullable):
+        t = type(e).__name__
+        if t == 'Call':
+            return {e.name}
+        if t in ('Named', 'Option'):
+            return self._first_calls(e.exp, nullable)
+        if t == 'Choice':
+            out = set()
+            for o in e.options:
+                out |= self._first_calls(o, nullable)
+            return out
+        if t == 'Sequence':
+            out = set()
+            for x in e.sequence:
+                out |= self._first_calls(x, nullable)
+                if not self._nullable_exp(x, nullable):
+                    break
+            return out
+        if t in ('Token', 'Pattern', 'EOF'):
+            return set()
+        # unknown construct: every rule may be called first
+        return set(self.rules)
+
+    def _left_closure(self):
+        nullable = set()
+        changed = True
+        while changed:
+            changed = False
+            for r in self.model.rules:
+                if r.name not in nullable and self._nullable_exp(r.exp, nullable):
+                    nullable.add(r.name)
+                    changed = True
+        first = {r.name: self._first_calls(r.exp, nullable) for r in self.model.rules}
+        clos = {n: set(v) | {n} for n, v in first.items()}
+        changed = True
+        while changed:
+            changed = False
+            for n in clos:
+                new = set(clos[n])
+                for m in list(clos[n]):
+                    new |= clos.get(m, set())
+                if new != clos[n]:
+                    clos[n] = new
+                    changed = True
+        return clos
 
     def parse(self, text, semantics=None, **kw):
         self.text = text
@@ -75,7 +141,10 @@ class ShimParser:
                 break
             best = res
             self.memo[key] = best
-            for k in [k for k in self.memo if k != key and k[1] >= pos]:
+            # Results memoised while the seed was growing may depend on it only if they start at
+            # the same position (left recursion consumes nothing; later positions never call back).
+            # …and only if the growing rule can be reached from them without consuming input.
+            for k in [k for k in self.memo if k != key and k[1] == pos and name in self.leftclos.get(k[0], (name,))]:
                 del self.memo[k]
         if best is None:
             self.memo[key] = None
